@@ -3,6 +3,7 @@ import Tftp.Props.C08
 import Tftp.Props.C02
 import Tftp.Model.Net
 import Tftp.Lemmas.Net
+import Tftp.Lemmas.NetLoss
 /-!
 # C04 — Loss tolerance
 
@@ -15,10 +16,13 @@ re-acknowledged (so a sender whose ACK was lost can go on), an accepted block re
 
 **Closed system.** `netRun` (`Model/Net.lean`) connects the two models through FIFO queues with a fault
 schedule. The fault-free case is proved for every file, block size and window size
-(`c14_fault_free_transfer` in `Props/C14.lean`). That every schedule with fewer than `MAX_RETRIES`
-losses ends with a byte-identical copy is *not* proved: `c04_closed_loop_partial` below is only an
-anchor; the faulty schedules are enumerated against the real workers in the same closed loop
-(see DESIGN.md).
+(`c14_fault_free_transfer` in `Props/C14.lean`). Safety holds under every fault schedule
+(`c04_closed_loop_safety`). That every schedule with fewer than `MAX_RETRIES` losses ends with a
+byte-identical copy is proved for lock-step transfers (windowsize 1, the RFC 1350 protocol), any file, any
+number of blocks, any duplications, together with the RFC's one exception
+(`c04_lockstep_loss_tolerance`); for windowsize >= 2 it is *not* proved - those schedules are enumerated
+against the real workers in the same closed loop (see DESIGN.md); `c04_closed_loop_partial` is the anchor
+of that enumeration.
 -/
 namespace Tftp
 
@@ -227,5 +231,62 @@ theorem c04_closed_loop_safety (sc : SCfg) (rc : RCfg) (hb : 0 < sc.b) (hw1 : 1 
     ((netRun sc rc fl fuel (netInit sc rc fl f)).r.status = .ok →
         (netRun sc rc fl fuel (netInit sc rc fl f)).r.win.file.content = f) :=
   closed_loop_safety sc rc hb hw1 hw hrb hrw fl f hN fuel
+
+end Tftp
+
+namespace Tftp
+
+/-- **closed loop, liveness under loss - lock-step** (windowsize 1, i.e. RFC 1350): for every file, every
+block size >= 1 and every positive retransmission interval, and for every fault schedule that duplicates any
+datagrams in either direction and loses fewer datagrams in total than `MAX_RETRIES` (so in particular any
+single lost DATA or ACK), there is a point at which the closed loop of the sender model and the receiver
+model has reached its end with: the receiver ended successfully, its file byte-identical to the sender's;
+the sender ended successfully too - or gave up, which happens only if the final acknowledgement (the last
+one the receiver emitted, ordinal `na - 1`) is among the lost ones: the exception RFC 1350 permits. No bound
+on the number of blocks: the proof goes through the 16-bit wrap. "Fewer than `MAX_RETRIES` in total" is
+stronger than the property's "fewer than `MAX_RETRIES` consecutive failed attempts"; the consecutive form
+and windowsize >= 2 are enumerated, not proved. -/
+theorem c04_lockstep_loss_tolerance (sc : SCfg) (rc : RCfg) (hb : 0 < sc.b) (hw : sc.w = 1) (hrep : sc.rep = 1)
+    (ht : 0 < sc.timeout) (hrb : rc.b = sc.b) (hrw : rc.w = 1) (hrrep : rc.rep = 1) (fl : Faults)
+    (hbudget : fl.dropData.length + fl.dropAck.length < Gen.maxRetries) (f : Bytes) :
+    ∃ fuel,
+      (netRun sc rc fl fuel (netInit sc rc fl f)).r.status = .ok ∧
+      (netRun sc rc fl fuel (netInit sc rc fl f)).r.win.file.content = f ∧
+      ((netRun sc rc fl fuel (netInit sc rc fl f)).s.status = .ok ∨
+        ((netRun sc rc fl fuel (netInit sc rc fl f)).s.status = .failed ∧
+          fl.dropAck.contains ((netRun sc rc fl fuel (netInit sc rc fl f)).na - 1) = true)) :=
+  lockstep_loss_tolerance sc rc ⟨hb, hw, hrep, ht, hrb, hrw, hrrep⟩ fl hbudget f
+
+/-- in particular: if no acknowledgement is lost, both sides end successfully -/
+theorem c04_lockstep_data_loss_only (sc : SCfg) (rc : RCfg) (hb : 0 < sc.b) (hw : sc.w = 1) (hrep : sc.rep = 1)
+    (ht : 0 < sc.timeout) (hrb : rc.b = sc.b) (hrw : rc.w = 1) (hrrep : rc.rep = 1) (fl : Faults)
+    (hack : fl.dropAck = []) (hbudget : fl.dropData.length < Gen.maxRetries) (f : Bytes) :
+    ∃ fuel,
+      (netRun sc rc fl fuel (netInit sc rc fl f)).s.status = .ok ∧
+      (netRun sc rc fl fuel (netInit sc rc fl f)).r.status = .ok ∧
+      (netRun sc rc fl fuel (netInit sc rc fl f)).r.win.file.content = f := by
+  obtain ⟨fuel, h1, h2, h3⟩ := c04_lockstep_loss_tolerance sc rc hb hw hrep ht hrb hrw hrrep fl
+    (by rw [hack]; simpa using hbudget) f
+  refine ⟨fuel, ?_, h1, h2⟩
+  rcases h3 with h3 | ⟨_, h4⟩
+  · exact h3
+  · rw [hack] at h4; simp at h4
+
+/-! non-vacuity: a lock-step configuration and a schedule with five losses and two duplications meet the
+hypotheses; run on a three-block file the simulator ends as the theorem says: the final ACK (ordinal 3) is
+lost, so the sender gives up while the receiver holds the complete file - RFC 1350's exception -/
+def exLockSc : SCfg := { b := 2, w := 1, timeout := 5, rep := 1 }
+def exLockRc : RCfg := { b := 2, w := 1, rep := 1, cleanOnError := true }
+def exLockFl : Faults := { dropData := [0, 1, 3], dupData := [2], dropAck := [1, 3], dupAck := [0] }
+
+example : 0 < exLockSc.b ∧ exLockSc.w = 1 ∧ exLockSc.rep = 1 ∧ 0 < exLockSc.timeout ∧ exLockRc.b = exLockSc.b ∧
+    exLockRc.w = 1 ∧ exLockRc.rep = 1 ∧ exLockFl.dropData.length + exLockFl.dropAck.length < Gen.maxRetries := by
+  decide
+
+example : (netRun exLockSc exLockRc exLockFl 200 (netInit exLockSc exLockRc exLockFl [1, 2, 3, 4, 5])).r.status = .ok ∧
+    (netRun exLockSc exLockRc exLockFl 200 (netInit exLockSc exLockRc exLockFl [1, 2, 3, 4, 5])).r.win.file.content = [1, 2, 3, 4, 5] ∧
+    (netRun exLockSc exLockRc exLockFl 200 (netInit exLockSc exLockRc exLockFl [1, 2, 3, 4, 5])).s.status = .failed ∧
+    (netRun exLockSc exLockRc exLockFl 200 (netInit exLockSc exLockRc exLockFl [1, 2, 3, 4, 5])).na - 1 = 3 := by
+  decide
 
 end Tftp
